@@ -614,6 +614,33 @@ def Decoder_isSegmentedPacket_obj (s : Decoder_St) (m : Bytes) (a_data : Nat) (a
 
 def Decoder_untranslated : List (String × String) := []
 
+/-- state of `ASAM::CMP::Decoder::Endpoint`: one field per data member -/
+structure Decoder_Endpoint_St where
+  f_deviceId : Nat
+  f_streamId : Nat
+deriving Repr, Inhabited
+
+def Decoder_Endpoint_default : Decoder_Endpoint_St := { f_deviceId := 0, f_streamId := 0 }
+
+/-- `ASAM::CMP::Decoder::Endpoint::operator==` -/
+def Decoder_Endpoint_operator___obj (s : Decoder_Endpoint_St) (a_rhs_deviceId : Nat) (a_rhs_streamId : Nat) : Option (Decoder_Endpoint_St × Bool) := do
+  pure (s, ((s.f_deviceId == a_rhs_deviceId) && (s.f_streamId == a_rhs_streamId)))
+
+def Decoder_Endpoint_untranslated : List (String × String) := []
+
+/-- state of `ASAM::CMP::Decoder::EndpointHash`: one field per data member -/
+structure Decoder_EndpointHash_St where
+deriving Repr, Inhabited
+
+def Decoder_EndpointHash_default : Decoder_EndpointHash_St := {  }
+
+/-- `ASAM::CMP::Decoder::EndpointHash::operator()` -/
+def Decoder_EndpointHash_operator___obj (s : Decoder_EndpointHash_St) (a_rhs_deviceId : Nat) (a_rhs_streamId : Nat) : Option (Decoder_EndpointHash_St × Nat) := do
+  let t1 ← sshl 32 a_rhs_streamId 16
+  pure (s, (sext 32 64 (a_rhs_deviceId ||| t1)))
+
+def Decoder_EndpointHash_untranslated : List (String × String) := []
+
 /-- state of `ASAM::CMP::InterfaceStatus`: one field per data member -/
 structure InterfaceStatus_St where
   f_interfacePacket : OPkt
